@@ -3232,7 +3232,28 @@ def r8_slug_registry_no_overwrite(corpus: Corpus, rep: Report, tier: str):
     # the section id recorded for a slug is the id docutils assigned to the section, not a recomputed one
     idx = _targetid_index(res)
     if idx is None:
-        rep.error("C12.R8", "resolve_myst_ref_doc: cannot tell which element of the slug tuple becomes the target id of make_refnode")
+        # decide: is the target id of the reference taken from the registry entry at all?
+        tid_arg = None
+        for c_ in res.local_nodes():
+            if isinstance(c_, ast.Call) and res.module.resolve(dotted(c_.func) or "") == "sphinx.util.nodes.make_refnode":
+                tid_arg = c_.args[3] if len(c_.args) > 3 else next((k_.value for k_ in c_.keywords if k_.arg == "targetid"), None)
+                tid_call = c_
+        reg_names = {nd.targets[0].id if isinstance(nd, ast.Assign) and isinstance(nd.targets[0], ast.Name) else (nd.target.id if isinstance(nd, ast.AnnAssign) and isinstance(nd.target, ast.Name) else None) for nd in res.local_nodes() if isinstance(nd, (ast.Assign, ast.AnnAssign)) and nd.value is not None and any((isinstance(x, ast.Constant) and x.value == "myst_slugs") or (isinstance(x, ast.Attribute) and x.attr == "myst_slugs") for x in ast.walk(nd.value))} - {None}
+        reads_entries = any(isinstance(x, ast.Subscript) and isinstance(x.ctx, ast.Load) and isinstance(x.value, ast.Name) and x.value.id in reg_names for x in res.local_nodes())
+        k = f"{res.fq}|slug registry|target id of the reference is the section id recorded in the entry"
+        if isinstance(tid_arg, ast.Name) and reg_names and reads_entries:
+            from_entry = False
+            for _, v, pos in assignments_to(res, tid_arg.id):
+                if isinstance(pos, int) and isinstance(v, (ast.Tuple, ast.List)) and pos < len(v.elts):
+                    v = v.elts[pos]  # a, b = x, y
+                if any(isinstance(x, ast.Subscript) and isinstance(x.value, ast.Name) and x.value.id in reg_names for x in ast.walk(v)):
+                    from_entry = True
+            if not from_entry:
+                rep.violation("C12.R8", k, res.module.site(tid_call), f"`{tid_arg.id}`, the target id handed to make_refnode, is never read from the slug registry entry (only other elements of the entry are used): the URI anchor is the slug as written in the link, not the id docutils gave the section (`doc.md#usage-1` -> #usage-1 instead of #id1)")
+            else:
+                rep.error("C12.R8", "resolve_myst_ref_doc: cannot tell which element of the slug tuple becomes the target id of make_refnode")
+        else:
+            rep.error("C12.R8", "resolve_myst_ref_doc: cannot tell which element of the slug tuple becomes the target id of make_refnode")
     else:
         for m in corpus.cls(BASE_R).methods.values():
             for st in m.local_nodes():
@@ -3847,4 +3868,12 @@ def mutants(corpus: Corpus):
     f = tr.func("ResolveAnchorIds.apply")
     lp = find_node(f, lambda n: isinstance(n, ast.For) and any(isinstance(x, ast.Subscript) and isinstance(x.ctx, ast.Store) and isinstance(x.value, ast.Name) and x.value.id == "slugs" for x in ast.walk(n)))
     add("c12-slug-titles-not-refreshed", "C12.R8", tr, lp, "pass", expect="re-read")
+    # class "the resolver does not take the target id from the registry entry" (decided by R8 as well as R3)
+    g = rf.func("MystReferenceResolver.resolve_myst_ref_doc")
+    unp = find_node(g, lambda n: isinstance(n, ast.Assign) and isinstance(n.targets[0], ast.Tuple) and len(n.targets[0].elts) == 3 and isinstance(n.value, ast.Subscript) and isinstance(n.value.value, ast.Name))
+    if unp is not None:
+        names = [unparse(e) for e in unp.targets[0].elts]
+        add("c12-target-id-not-read-from-entry", "C12.R8", rf, unp, f"{names[1]}, {names[2]} = {unparse(unp.value.slice)}, {unparse(unp.value)}[2]", expect="recorded in the entry")
+    else:
+        out.append(("c12-target-id-not-read-from-entry", "slug tuple unpacking not found"))
     return out
